@@ -6,7 +6,7 @@
     slices, and the repaired parser wraps a decorated spread into a fragment of its own: both sides are
     brought to the same normal form (fields before fragments; wrapper and wrapped fragment merged). *)
 From Coq Require Import List String Bool Arith ZArith.
-From Thunder Require Import Lib.Json Gql.Types Gql.Value Gql.Query Gql.Ref Gql.Exec Gql.Check.
+From Thunder Require Import Lib.Json Gql.Types Gql.Value Gql.Query Gql.Ref Gql.Exec Gql.Check Gql.CheckFlat.
 From Thunder Require Federation.Normalize Gql.FedPrune Gql.FedPruneTie.
 Import ListNotations.
 Open Scope string_scope.
@@ -84,11 +84,12 @@ Definition check_fedview (c : gcase) (obs : option (list N.node)) : list nat :=
   | [] => []
   end.
 
-Fixpoint mismatches19_from_sparse (_ : nat) (cs : list (nat * (gcase * option (list N.node)))) : list (nat * list nat) :=
+Fixpoint mismatches19_from_sparse (_ : nat) (cs : list (nat * (gcase * option (list N.node) * option (option (list ftree)))))
+  : list (nat * list nat) :=
   match cs with
   | [] => []
-  | (i, (c, o)) :: t => match dedup (check_case c ++ check_fedview c o) with
-                        | [] => mismatches19_from_sparse 0 t
-                        | l => (i, l) :: mismatches19_from_sparse 0 t
-                        end
+  | (i, (c, o, fl)) :: t => match dedup (check_case c ++ check_fedview c o ++ check_flat c fl) with
+                            | [] => mismatches19_from_sparse 0 t
+                            | l => (i, l) :: mismatches19_from_sparse 0 t
+                            end
   end.
